@@ -27,9 +27,15 @@ while args:
         baseline = True
     else:
         sel.append(a)
-patches = sorted(glob.glob(os.path.join(V, 'mutants', '*.patch')))
+patches = sorted(glob.glob(os.path.join(V, 'mutants', '*.patch'))) + sorted(glob.glob(os.path.join(V, 'seeded', '*', 'patch.diff')))
+
+
+def name_of(p):
+    return os.path.basename(p)[:-6] if p.endswith('.patch') else 'seeded:' + os.path.basename(os.path.dirname(p))
+
+
 if sel:
-    patches = [p for p in patches if any(os.path.basename(p).startswith(s) or p == s for s in sel)]
+    patches = [p for p in patches if any(name_of(p).startswith(s) or name_of(p).startswith('seeded:' + s) or p == s for s in sel)]
 rows = []
 _base = {}
 
@@ -54,9 +60,9 @@ def base_groups(pid):
 
 
 for p in patches:
-    name = os.path.basename(p)[:-6]
-    pid = name.split('_')[0]
-    d = tempfile.mkdtemp(prefix=f'verif-mut-{name}-')
+    name = name_of(p)
+    pid = name.replace('seeded:', '').replace('-', '_').split('_')[0]
+    d = tempfile.mkdtemp(prefix='verif-mut-' + name.replace(':', '-') + '-')
     try:
         shutil.copytree('/repo/src', os.path.join(d, 'src'))
         if baseline:
